@@ -13,8 +13,8 @@ class _Errno(dict):
 
 
 ERRNO = _Errno({"ENOENT": 2, "EACCES": 13, "E2BIG": 7, "ENOEXEC": 8, "ENOMEM": 12, "ETXTBSY": 26})
-DSMAX = {"default": 2047, "min": 255, "max": 1048575}
-LOGMAX = {"default": 16383, "min": 255, "max": 1048575}
+DSMAX = {"default": 2047, "min": 255, "max": 1048575, "big": 65535}
+LOGMAX = {"default": 16383, "min": 255, "max": 1048575, "big": 131071}
 FMT = {"static": b"static text", "cmdfile": b"%{filename}|%{cmdline}|end", "cmd": b"%{cmdline}", "empty": b"",
        "unknown": b"a%{nosuch}b", "tid": b"t=%{tid} n=%{snoopy_threads}",
        "heavy": (b"%{cgroup:0}|%{cgroup:name=systemd}|%{cgroup:nosuch}|%{systemd_unit_name}|%{rpname}|%{tty}|%{tty_username}|%{login}|%{username}|%{egroup}|%{cwd}|"
